@@ -55,7 +55,7 @@ CONTENTS = {
     "rich": RICH,
 }
 GOODHEX = "a" * 64
-SCHEMA_ARGS = ["META", "DEBATE_TRANSCRIPT", "SKILL", "TEST_HOLOGRAPHIC", GEN, "GENW", "BROKEN_TAB", "BROKEN_BRACKET", "NOPE", "meta", "genv", "../x", "A/B", "META\n", "GENV ",
+SCHEMA_ARGS = ["META", "DEBATE_TRANSCRIPT", "SKILL", "TEST_HOLOGRAPHIC", GEN, "GENW", "BROKEN_TAB", "BROKEN_BRACKET", "NOPE", "TEST", "DEBATE", "SK", "S", "GEN", "TEST_HOLOGRAPHIC_V2", "FMONLY", "meta", "genv", "../x", "A/B", "META\n", "GENV ",
                f"frozen@sha256:{GOODHEX}", "frozen@sha256:zz", "frozen@sha256:" + "a" * 10, "latest", ""]
 PROFILES = ["STRICT", "STANDARD", "LENIENT", "ULTRA", "strict", "BOGUS"]
 STATUSES = {"VALIDATED", "UNVALIDATED", "INVALID"}
@@ -84,6 +84,8 @@ UNLOADABLE = {"BROKEN_TAB", "BROKEN_BRACKET"}      # a file of that name is foun
 def setup():
     sl.install_schema("BROKEN_TAB", sl.schema_text("BROKEN_TAB", GEN_FIELDS, "REJECT").replace("FIELDS:\n  ", "FIELDS:\n\t"))
     sl.install_schema("BROKEN_BRACKET", sl.schema_text("BROKEN_BRACKET", GEN_FIELDS, "REJECT").replace("ENUM[ACTIVE,DONE]", "ENUM[ACTIVE,DONE"))
+    sl.install_schema("FMONLY", '===FMONLY===\nMETA:\n  TYPE::SCHEMA\n  VERSION::"1.0.0"\n  STATUS::ACTIVE\n---\nFRONTMATTER:\n  name:\n    REQUIRED::true\n    TYPE::STRING\n'
+                      '  owner:\n    REQUIRED::true\n    TYPE::LIST\n===END===\n')
     sl.install_schema(GEN, sl.schema_text(GEN, GEN_FIELDS, "REJECT"))
     sl.install_schema("GENW", sl.schema_text("GENW", GEN_FIELDS, "WARN"))
 
@@ -103,6 +105,9 @@ def envelope_invariants(tool, r, args, content_class, viol, cs):
     unreadable = content_class in ("lexer_error", "parser_error")
     if "valid" in r and r["valid"] != (st == "VALIDATED"):
         fail("valid-flag-disagrees-with-status", (r["valid"], st), "valid == (status == VALIDATED)")
+    if st == "VALIDATED" and schema == "FMONLY":
+        # none of the generated contents has YAML frontmatter: a schema that REQUIRES frontmatter fields cannot have been satisfied
+        fail("VALIDATED-although-required-frontmatter-is-missing", st, "INVALID (rules applied) or UNVALIDATED (rules not applied), never VALIDATED")
     if st == "VALIDATED":
         if schema is None or not schema_exists(schema):
             fail("VALIDATED-without-existing-schema", (schema, st), "UNVALIDATED for unknown/malformed/unloadable schema names")
@@ -279,6 +284,42 @@ def check_cli(case) -> Res:
     return Res(st or f"exit{q.exit_code}", nontrivial=("cli", cmd, cclass, schema, fix, st), violations=viol, transitions=1)
 
 
+# ---------------------------------------------------------------- mutations: the verdict is the verdict of what is WRITTEN
+MUT_DOC = '===I===\nMETA:\n  TYPE::X\n  VERSION::"1.0"\n  STATUS::ACTIVE\n---\nA::1\n===END===\n'
+MUTATIONS = [{"STATUS": "BOGUS"}, {"STATUS": "draft"}, {"VERSION": {"$op": "DELETE"}}, {"TYPE": {"$op": "DELETE"}}, {"TYPE": 5}, {"VERSION": None}, {"STATUS": "DRAFT"}, {"EXTRA": 1}, {}]
+
+
+def check_mutations(case) -> Res:
+    mi, mode, lenient, dry = case
+    setup()
+    path = sl.workfile("m10")
+    if os.path.exists(path):
+        os.unlink(path)
+    kw = dict(target_path=path, schema="META", mutations=json.loads(json.dumps(MUTATIONS[mi])), lenient=lenient, corrections_only=dry)
+    if mode == "content":
+        kw["content"] = MUT_DOC
+    else:
+        with open(path, "w", encoding="utf-8") as f:
+            f.write(MUT_DOC)
+        kw["changes"] = {"A": 2}
+    r = sl.call("w", **kw)
+    cs = dict(tool="write_mutations", mutation=MUTATIONS[mi], mode=mode, lenient=lenient, corrections_only=dry)
+    viol = []
+    st = envelope_invariants("write", r, dict(schema="META", lenient=lenient), "valid", viol, cs)
+    if r.get("status") == "success" and not dry and os.path.exists(path):
+        written = open(path, encoding="utf-8").read()
+        r2 = sl.call("v", content=written, schema="META")
+        if st == "VALIDATED" and r2.get("validation_status") == "INVALID":
+            viol.append(dict(descriptor="write_mutations:VALIDATED-but-the-written-file-is-INVALID", case=cs, observed=(written, r2.get("validation_errors")),
+                             expected="the verdict describes the document that was written"))
+        if st == "INVALID" and r2.get("validation_status") == "VALIDATED":
+            viol.append(dict(descriptor="write_mutations:INVALID-but-the-written-file-is-VALIDATED", case=cs, observed=(written, r.get("validation_errors")),
+                             expected="the verdict describes the document that was written"))
+    if os.path.exists(path):
+        os.unlink(path)
+    return Res(st or "none", nontrivial=("mut", mi, mode, lenient, dry, st), violations=viol, transitions=2)
+
+
 # ---------------------------------------------------------------- schema life cycle (histories)
 LIFE = "LIFE"
 LIFE_V1 = [("STATUS", '"ACTIVE"', "REQ∧ENUM[ACTIVE,DONE]"), ("NAME", '"x"', "REQ")]
@@ -362,6 +403,7 @@ def run(ctx):
     cli = [("validate", c, s, fx) for c in contents for s in (None, "META", GEN, "NOPE", "meta", "../META", "SKILL") for fx in (False, True)] + \
           [("write", c, s, False) for c in contents for s in (None, "META", GEN, "NOPE", "meta")]
     ctx.explore("cli", cli, check_cli, chunk=10)
+    ctx.explore("write_mutations", Product(list(range(len(MUTATIONS))), ["content", "changes"], [False, True], [False, True]), check_mutations, chunk=10)
     from ..explore import Sequences
     ctx.explore("schema_lifecycle", Sequences(LIFE_EVENTS, 4 if ctx.quick else 5, 1), check_lifecycle, chunk=20)
     sl.cleanup()
@@ -373,7 +415,9 @@ def replay(ctx, rp):
     c = rp["case"]
     try:
         t = c["tool"]
-        if t == "lifecycle":
+        if t == "write_mutations":
+            r = check_mutations((MUTATIONS.index(c["mutation"]), c["mode"], c["lenient"], c["corrections_only"]))
+        elif t == "lifecycle":
             r = check_lifecycle(tuple(c["events"]))
         elif t == "validate":
             r = check_validate((c["content"], c["schema"], c["profile"], (c["fix"], c["diff_only"], c["compact"], c["grammar_hint"], c["debug_grammar"])))
